@@ -155,6 +155,31 @@ func RegisterIntrinsics(p string) {
 		}
 		return it.v
 	}
+	x[P+"Callers"] = func(fr *frame, args []value) value { return chainOf(fr.caller, 14) }
+	x[P+"ObserveValue"] = func(fr *frame, args []value) value {
+		av := args[1]
+		if i, ok := av.(iface); ok {
+			av = i.v
+		}
+		fr.i.eng.observeDeep(strOf(args[0]), av, 0)
+		return nil
+	}
+	x[P+"ObserveBlob"] = func(fr *frame, args []value) value {
+		e := fr.i.eng
+		bs, _ := args[1].([]value)
+		if len(bs) == 4 {
+			if b0, ok := bs[0].(uint8); ok && b0 == 0xFE {
+				b := bytesOf(bs)
+				id := int(b[1])<<16 | int(b[2])<<8 | int(b[3])
+				if id < len(e.blobs) {
+					e.observeDeep(strOf(args[0]), e.blobs[id][1], 0)
+					return nil
+				}
+			}
+		}
+		e.observeDeep(strOf(args[0]), args[1], 0)
+		return nil
+	}
 	x[P+"MapOrder"] = func(fr *frame, args []value) value { return fr.i.eng.spec.MapOrder }
 }
 
@@ -232,4 +257,61 @@ func (it *orderedMapIter) next() tuple {
 	k, v := it.keys[it.pos], it.vals[it.pos]
 	it.pos++
 	return []value{true, k, v}
+}
+
+
+// observeDeep turns every leaf of an interpreter value into an observation: symbolic
+// leaves as their terms, concrete leaves folded into one hash per value.
+func (e *Engine) observeDeep(name string, v value, depth int) {
+	if depth > 12 {
+		return
+	}
+	switch x := v.(type) {
+	case nil:
+	case BigCell:
+		e.observe(name, x.T)
+	case SymInt:
+		e.observe(name, x.T)
+	case SymBool:
+		e.observe(name, x.T)
+	case SymString:
+		for i, b := range x.B {
+			e.observeDeep(fmt.Sprintf("%s[%d]", name, i), b, depth+1)
+		}
+	case bool:
+		e.observe(name, TBool(x))
+	case string:
+		e.observe(name, K(new(big.Int).SetBytes([]byte(x))))
+	case int, int8, int16, int32, int64, uint, uint8, uint16, uint32, uint64, uintptr:
+		e.observe(name, termOfInt(x))
+	case *value:
+		if x != nil {
+			e.observeDeep(name, *x, depth+1)
+		}
+	case iface:
+		e.observeDeep(name, x.v, depth+1)
+	case structure:
+		for i, f := range x {
+			e.observeDeep(fmt.Sprintf("%s.%d", name, i), f, depth+1)
+		}
+	case array:
+		for i, f := range x {
+			e.observeDeep(fmt.Sprintf("%s[%d]", name, i), f, depth+1)
+		}
+	case []value:
+		e.observe(name+"#len", KI(int64(len(x))))
+		allBytes := len(x) > 0
+		for _, b := range x {
+			if _, ok := b.(uint8); !ok {
+				allBytes = false
+			}
+		}
+		if allBytes {
+			e.observe(name, K(new(big.Int).SetBytes(bytesOf(x))))
+			return
+		}
+		for i, f := range x {
+			e.observeDeep(fmt.Sprintf("%s[%d]", name, i), f, depth+1)
+		}
+	}
 }
